@@ -220,6 +220,7 @@ type DimSpec struct {
 	Fixed      int64  `json:"fixed,omitempty"`
 	Param      string `json:"param,omitempty"`
 	EmptyParam bool   `json:"empty_param,omitempty"` // dim_param present but "" (an unnamed symbolic dimension)
+	Denotation string `json:"denotation,omitempty"`  // the optional ONNX dimension denotation (DATA_BATCH, ...): a label, never a size
 }
 
 func ValueInfo(name string, dt ref.DT, dims []DimSpec) *onnx.ValueInfoProto {
@@ -234,6 +235,7 @@ func ValueInfo(name string, dt ref.DT, dims []DimSpec) *onnx.ValueInfoProto {
 		case d.Fixed > 0:
 			dim.Value = &onnx.TensorShapeProto_Dimension_DimValue{DimValue: d.Fixed}
 		}
+		dim.Denotation = d.Denotation
 		sh.Dim = append(sh.Dim, dim)
 	}
 	return &onnx.ValueInfoProto{Name: name, Type: &onnx.TypeProto{Value: &onnx.TypeProto_TensorType{
